@@ -300,7 +300,7 @@ def mod_labels(labels, mod):
 
 
 def build_move(m: dict, labels, cache: dict):
-    """m: {"t": "D"|"E"|"C"|"H"|"+"|"*"|"ref", ...}; cache maps ids to already built moves."""
+    """m: {"t": "D"|"E"|"C"|"H"|"+"|"*"|"nest"|"ref", ...}; cache maps ids to already built moves."""
     from quansino.integrators.displacement import Verlet
     from quansino.moves.cell import CellMove
     from quansino.moves.displacement import DisplacementMove, HamiltonianDisplacementMove
@@ -321,6 +321,12 @@ def build_move(m: dict, labels, cache: dict):
                 out = out + p
     elif t == "*":
         out = build_move(m["part"], labels, cache) * m["n"]
+    elif t == "nest":
+        # a composite built with the constructor from its parts as they are (+ and * splice composites, the constructor
+        # nests them: an inner specialised composite keeps its own logic inside a plain one)
+        from quansino.moves.composite import CompositeMove
+
+        out = CompositeMove([build_move(p, labels, cache) for p in m["parts"]])
     elif t in ("D", "E"):
         lab = mod_labels(np.array(m.get("labels", labels)), m.get("labelmod"))
         if cache.get("share_label_arrays") and not m.get("labelmod") and "labels" not in m:
